@@ -1375,6 +1375,128 @@ static bool compile_builtin_call(CG *cg, ASTNode *node) {
                 emit_op(cg, OP_ARR_SET);
                 return true;
             }
+            /* the rest of the documented list API (docs/STDLIB.md "List Operations"), on the same array representation */
+            if (strcmp(suffix, "_capacity") == 0 && argc == 1 && strstr(name, "_with_capacity")) {
+                /* list_T_with_capacity(n) -> empty list; the capacity is only a hint */
+                compile_expr(cg, args[0]);
+                emit_op(cg, OP_POP);
+                emit_op(cg, OP_ARR_NEW, (int)TAG_INT);
+                return true;
+            }
+            if (strcmp(suffix, "_capacity") == 0 && argc == 1) {
+                /* list_T_capacity(list): any number >= length */
+                compile_expr(cg, args[0]);
+                emit_op(cg, OP_ARR_LEN);
+                return true;
+            }
+            if (strcmp(suffix, "_pop") == 0 && argc == 1) {
+                /* list_T_pop(list) -> last element (ARR_POP leaves [value, array]; an empty list traps) */
+                compile_expr(cg, args[0]);
+                emit_op(cg, OP_ARR_POP);
+                emit_op(cg, OP_POP);
+                return true;
+            }
+            if (strcmp(suffix, "_remove") == 0 && argc == 2) {
+                compile_expr(cg, args[0]);
+                compile_expr(cg, args[1]);
+                emit_op(cg, OP_ARR_REMOVE);
+                return true;
+            }
+            if (strcmp(suffix, "_empty") == 0 && argc == 1 && strstr(name, "_is_empty")) {
+                compile_expr(cg, args[0]);
+                emit_op(cg, OP_ARR_LEN);
+                emit_op(cg, OP_PUSH_I64, (int64_t)0);
+                emit_op(cg, OP_EQ);
+                return true;
+            }
+            if (strcmp(suffix, "_free") == 0 && argc == 1) {
+                /* reference counted: nothing to do */
+                compile_expr(cg, args[0]);
+                emit_op(cg, OP_POP);
+                emit_op(cg, OP_PUSH_VOID);
+                return true;
+            }
+            if (strcmp(suffix, "_clear") == 0 && argc == 1) {
+                /* while (length > 0) pop */
+                compile_expr(cg, args[0]);
+                uint16_t l_slot = local_add(cg, "__lclear_l__", 0);
+                emit_op(cg, OP_STORE_LOCAL, (int)l_slot);
+                uint32_t loop_top = cg->code_size;
+                emit_op(cg, OP_LOAD_LOCAL, (int)l_slot);
+                emit_op(cg, OP_ARR_LEN);
+                emit_op(cg, OP_PUSH_I64, (int64_t)0);
+                emit_op(cg, OP_GT);
+                uint32_t jf_instr = cg->code_size;
+                uint32_t jf_off = emit_op(cg, OP_JMP_FALSE, (int32_t)0);
+                emit_op(cg, OP_LOAD_LOCAL, (int)l_slot);
+                emit_op(cg, OP_ARR_POP);
+                emit_op(cg, OP_POP);
+                emit_op(cg, OP_POP);
+                uint32_t jmp_instr = cg->code_size;
+                emit_op(cg, OP_JMP, (int32_t)0);
+                patch_jump(cg, jmp_instr + 1, jmp_instr, loop_top);
+                patch_jump(cg, jf_off + 1, jf_instr, cg->code_size);
+                emit_op(cg, OP_PUSH_VOID);
+                return true;
+            }
+            if (strcmp(suffix, "_insert") == 0 && argc == 3) {
+                /* list_T_insert(list, index, value): 0 <= index <= length; append, then shift the tail right */
+                compile_expr(cg, args[0]);
+                uint16_t l_slot = local_add(cg, "__lins_l__", 0);
+                emit_op(cg, OP_STORE_LOCAL, (int)l_slot);
+                compile_expr(cg, args[1]);
+                uint16_t i_slot = local_add(cg, "__lins_i__", 0);
+                emit_op(cg, OP_STORE_LOCAL, (int)i_slot);
+                compile_expr(cg, args[2]);
+                uint16_t v_slot = local_add(cg, "__lins_v__", 0);
+                emit_op(cg, OP_STORE_LOCAL, (int)v_slot);
+                emit_op(cg, OP_LOAD_LOCAL, (int)l_slot);
+                emit_op(cg, OP_ARR_LEN);
+                uint16_t j_slot = local_add(cg, "__lins_j__", 0);
+                emit_op(cg, OP_STORE_LOCAL, (int)j_slot);
+                /* assert (0 <= index) and (index <= length) */
+                emit_op(cg, OP_LOAD_LOCAL, (int)i_slot);
+                emit_op(cg, OP_PUSH_I64, (int64_t)0);
+                emit_op(cg, OP_GE);
+                emit_op(cg, OP_ASSERT);
+                emit_op(cg, OP_LOAD_LOCAL, (int)i_slot);
+                emit_op(cg, OP_LOAD_LOCAL, (int)j_slot);
+                emit_op(cg, OP_LE);
+                emit_op(cg, OP_ASSERT);
+                emit_op(cg, OP_LOAD_LOCAL, (int)l_slot);
+                emit_op(cg, OP_LOAD_LOCAL, (int)v_slot);
+                emit_op(cg, OP_ARR_PUSH);
+                emit_op(cg, OP_POP);
+                /* while (j > index) { list[j] = list[j-1]; j-- } */
+                uint32_t loop_top = cg->code_size;
+                emit_op(cg, OP_LOAD_LOCAL, (int)j_slot);
+                emit_op(cg, OP_LOAD_LOCAL, (int)i_slot);
+                emit_op(cg, OP_GT);
+                uint32_t jf_instr = cg->code_size;
+                uint32_t jf_off = emit_op(cg, OP_JMP_FALSE, (int32_t)0);
+                emit_op(cg, OP_LOAD_LOCAL, (int)l_slot);
+                emit_op(cg, OP_LOAD_LOCAL, (int)j_slot);
+                emit_op(cg, OP_LOAD_LOCAL, (int)l_slot);
+                emit_op(cg, OP_LOAD_LOCAL, (int)j_slot);
+                emit_op(cg, OP_PUSH_I64, (int64_t)1);
+                emit_op(cg, OP_SUB);
+                emit_op(cg, OP_ARR_GET);
+                emit_op(cg, OP_ARR_SET);
+                emit_op(cg, OP_POP);
+                emit_op(cg, OP_LOAD_LOCAL, (int)j_slot);
+                emit_op(cg, OP_PUSH_I64, (int64_t)1);
+                emit_op(cg, OP_SUB);
+                emit_op(cg, OP_STORE_LOCAL, (int)j_slot);
+                uint32_t jmp_instr = cg->code_size;
+                emit_op(cg, OP_JMP, (int32_t)0);
+                patch_jump(cg, jmp_instr + 1, jmp_instr, loop_top);
+                patch_jump(cg, jf_off + 1, jf_instr, cg->code_size);
+                emit_op(cg, OP_LOAD_LOCAL, (int)l_slot);
+                emit_op(cg, OP_LOAD_LOCAL, (int)i_slot);
+                emit_op(cg, OP_LOAD_LOCAL, (int)v_slot);
+                emit_op(cg, OP_ARR_SET);
+                return true;
+            }
         }
     }
 
